@@ -151,6 +151,13 @@ M = [
     ('csvio', 'tasks_to_raws', 'pjplan/io/raw.py', "            parent_id=t.parent.id if t.parent else None,", "            parent_id=t.parent.id if t.parent and t.parent.id != 0 else None,", 'parent_id'),
     ('critpath', '__forward', 'pjplan/alg/critical_path.py', "                max_start = max(max_start, link.start.start_units + link.units)", "                max_start = max(max_start, link.start.start_units)", 'bellman'),
     ('critpath', '__backward', 'pjplan/alg/critical_path.py', "                min_end = node.start_units", "                min_end = 0", 'Bellman'),
+    ('clone', 'WBS.clone', 'pjplan/wbs.py', "        return self.__clone(self.roots)", "        self.__clone(self.roots)\n        return self", 'clone-copies'),
+    ('clone', 'WBS.__clone', 'pjplan/wbs.py', "            if not k.startswith('_'):\n                cloned_project.__setattr__(k, self.__getattribute__(k))", "            if not k.startswith('__'):\n                cloned_project.__setattr__(k, self.__getattribute__(k))", 'attribute'),
+    ('clone', 'WBS.__clone', 'pjplan/wbs.py', "                cloned_project.__setattr__(k, self.__getattribute__(k))", "                cloned_project.__setattr__(k, cloned_project.__getattribute__(k))", 'attribute'),
+    ('clone', 'WBS.__clone', 'pjplan/wbs.py', "                cloned_project.__setattr__(k, self.__getattribute__(k))", "                self.__setattr__(k, self.__getattribute__(k))", 'carried-over'),
+    ('clone', 'WBS.__clone', 'pjplan/wbs.py', "            if not k.startswith('_'):\n                cloned_project.__setattr__(k, self.__getattribute__(k))", "            if not k.startswith('_') and k != 'name':\n                cloned_project.__setattr__(k, self.__getattribute__(k))", 'carried-over'),
+    ('clone', 'WBS.__clone', 'pjplan/wbs.py', "        cloned_project.roots = [cloned_tasks[r.id] for r in roots]", "        cloned_project.roots = [cloned_tasks[r.id] for r in self.roots]", 'roots'),
+    ('clone', 'WBS.__clone', 'pjplan/wbs.py', "        cloned_project.roots = [cloned_tasks[r.id] for r in roots]\n", "        cloned_project.roots = [cloned_tasks[r.id] for r in roots]\n        cloned_project = WBS()\n", 'roots'),
     ('clone', 'Task.clone', 'pjplan/task.py', "            if not k.startswith('_'):\n                cloned.__setattr__(k, self.__getattribute__(k))", "            if not k.startswith('_') and k != 'min_start':\n                cloned.__setattr__(k, self.__getattribute__(k))", 'copied'),
     ('render', 'mermaid_task_state', 'pjplan/viz/mermaid/gantt.py', "        if task.milestone:\n            return 'milestone,'\n        if task.end <= now:\n            return 'done,'", "        if task.end <= now:\n            return 'done,'\n        if task.milestone:\n            return 'milestone,'", 'milestone'),
     ('render', 'progress', 'pjplan/viz/dhtmlx/gantt.py', "progress = 1 - (max(t.estimate - t.spent, 0))/t.estimate", "progress = t.spent / t.estimate", 'progress'),
